@@ -113,6 +113,13 @@ Definition show_build_and_peel (N : nat) (seed : string) (hs : list (string * st
   | Some P => show_packet P :: peel_trace (map fst hs) (hx ad) P
   end.
 
+(** the same from explicit initial packet bytes (any packet size) *)
+Definition show_raw (noise : string) (hs : list (string * string)) (ad : string) : list string :=
+  match i_build (hx noise) (mk_hops hs) (hx ad) with
+  | None => ["ERR"]
+  | Some P => show_packet P :: peel_trace (map fst hs) (hx ad) P
+  end.
+
 Definition show_err (p : err_packet) : string :=
   xh (e_data p) ++ ":" ++ match e_attr p with Some a => xh (attr_bytes a) | None => "-" end.
 
